@@ -1001,7 +1001,8 @@ class Runner:
         out, fv = self.framed([], lambda: self.call(lambda: x.to_str(spec, o, rs, re_)))
         self.count('tostr', out)
         viol = self.c09(out, 'tostr', repr(spec), allowed=(ValueError,)) + fv
-        if out[0] == 'err' and not spec:
+        if out[0] == 'err' and (not spec or not isinstance(out[1], ValueError)):
+            # rendering never fails (a format spec outside the grammar: ValueError, nothing else)
             viol.append(('C01', 'render_total', 'to_str(%r,%r,%r,%r) raises %r' % (spec, o, rs, re_, out[1])))
         if not pre.same_as(O.Snap(x)):
             viol.append(('C12', 'format_pure', repr(spec)))
